@@ -239,7 +239,7 @@ fn worker(c: &Case, prog: &std::sync::Arc<std::sync::Mutex<Progress>>, mut hooks
             Err(e) => {
                 let msg = crate::panic_msg(e).replace(' ', "_");
                 if msg.contains("InternalSolverError") {
-                    // the constraint solver behind ratatui's Layout gave up (hash-order dependent, see F16):
+                    // the constraint solver behind ratatui's Layout gave up (hash-order dependent, see F17):
                     // a crash of the drawing library, outside the model
                     g.states.push("fault:layout_solver".to_string());
                     g.fails.push(format!("C17:layout_solver_panic@{i}:{}:{msg}", op.fmt()));
